@@ -2,7 +2,7 @@
 import json, os, sys, subprocess, concurrent.futures as cf
 sys.path.insert(0, '/verif')
 import tools_seeded as ts
-RES='/verif/.build/seeded_results.json'
+RES=os.environ.get('SEED_RES','/verif/.build/seeded_results.json')
 res=json.load(open(RES)) if os.path.exists(RES) else {}
 items=[]
 for a in sys.argv[1:]:
